@@ -167,6 +167,8 @@ static void run_history(const std::vector<int>& seq, int cache_kind, uint64_t co
         vf::cache_trace().clear();
         std::vector<std::pair<int, dl::FftPlan>> held;
         std::vector<std::pair<int, dl::FftPlanR>> heldr;
+        std::vector<std::pair<int, dl::IfftPlanR>> heldi;
+        const int alt = 12;   //an even length used for interleaved irfft calls
         std::string sofar;
         for (size_t i = 0; i < seq.size(); ++i) {
             const int n = seq[i];
@@ -188,6 +190,11 @@ static void run_history(const std::vector<int>& seq, int cache_kind, uint64_t co
                 if (keep_plans && i % 3 == 0) {
                     heldr.emplace_back(n, dl::FftPlanR(n));
                 }
+                if (keep_plans && i % 3 == 1 && n % 2 == 0) {
+                    heldi.emplace_back(n, dl::IfftPlanR(n));
+                    //the inverse real transforms of the history run through the one-shot function
+                    (void)dl::irfft(g_ref.Xr[alt], alt);
+                }
             }
             const size_t before = mon.mc.keys.size() + mon.mr.keys.size();
             mon.after_request(cache_kind, n, ctx);
@@ -202,6 +209,11 @@ static void run_history(const std::vector<int>& seq, int cache_kind, uint64_t co
         for (auto& p : heldr) {
             if (!close_c(p.second.solve(g_ref.xr[p.first]), g_ref.Xr[p.first])) {
                 mon.fail("C10/held_plan/real", vh::fmt("FftPlanR(%d) obtained during history [%s] gives a wrong result at the end", p.first, sofar.c_str()));
+            }
+        }
+        for (auto& p : heldi) {
+            if (!close_r(p.second.solve(g_ref.Xr[p.first]), g_ref.xb[p.first])) {
+                mon.fail("C10/held_plan/inverse_real", vh::fmt("IfftPlanR(%d) obtained during history [%s] gives a wrong result at the end", p.first, sofar.c_str()));
             }
         }
         //did the history evict at least once? (trace has more distinct puts than the capacity)
@@ -322,6 +334,10 @@ static void random_history(int nreq, vh::Rng& r, int id) {
             std::shared_ptr<dl::FftPlan> pc;
             std::shared_ptr<dl::FftPlanR> pr;
             std::shared_ptr<dl::IfftPlan> pi;
+            std::shared_ptr<dl::IfftPlanR> pir;
+            std::shared_ptr<dl::CztPlan> pz;
+            arr_cmplx first_c;   //result at the moment the plan was obtained
+            arr_real first_r;
         };
         std::vector<Held> held;
         auto check_held = [&](const Held& h, const std::string& ctx) {
@@ -331,11 +347,17 @@ static void random_history(int nreq, vh::Rng& r, int id) {
                 ok = close_c(h.pc->solve(g_ref.xc[h.n]), g_ref.Xc[h.n]);
             } else if (h.kind == 1) {
                 ok = close_c(h.pr->solve(g_ref.xr[h.n]), g_ref.Xr[h.n]);
-            } else {
+            } else if (h.kind == 2) {
                 ok = close_c(h.pi->solve(g_ref.xc[h.n]), g_ref.xi[h.n]);
+            } else if (h.kind == 3) {
+                const arr_real y = h.pir->solve(g_ref.Xr[h.n]);
+                ok = close_r(y, g_ref.xb[h.n]) && close_r(y, h.first_r);
+            } else {
+                ok = close_c(h.pz->solve(g_ref.xc[h.n]), h.first_c);
             }
             if (!ok) {
-                mon.fail(vh::fmt("C10/held_plan/%s", h.kind == 0 ? "complex" : (h.kind == 1 ? "real" : "inverse")), ctx + vh::fmt(": a long-lived plan of length %d gives a wrong result", h.n));
+                const char* kn[5] = {"complex", "real", "inverse", "inverse_real", "czt"};
+                mon.fail(vh::fmt("C10/held_plan/%s", kn[h.kind]), ctx + vh::fmt(": a long-lived plan of length %d no longer gives the result it gave when it was obtained", h.n));
             }
         };
         for (int i = 0; i < nreq && mon.ok; ++i) {
@@ -377,14 +399,25 @@ static void random_history(int nreq, vh::Rng& r, int id) {
             case 6: {
                 Held h;
                 h.n = n;
-                h.kind = int(r.below(3));
+                h.kind = int(r.below(5));
+                if (h.kind == 3 && n % 2 != 0) {
+                    h.kind = 2;
+                }
                 if (h.kind == 0) {
                     h.pc = std::make_shared<dl::FftPlan>(n);
                 } else if (h.kind == 1) {
                     h.pr = std::make_shared<dl::FftPlanR>(n);
                     cache = 1;
-                } else {
+                } else if (h.kind == 2) {
                     h.pi = std::make_shared<dl::IfftPlan>(n);
+                } else if (h.kind == 3) {
+                    h.pir = std::make_shared<dl::IfftPlanR>(n);
+                    h.first_r = h.pir->solve(g_ref.Xr[n]);
+                    cache = -1;
+                } else {
+                    h.pz = std::make_shared<dl::CztPlan>(n, n + 3, dl::expj(-2 * 3.14159265358979323846 / (n + 1)), cmplx_t{0.95, 0.05});
+                    h.first_c = h.pz->solve(g_ref.xc[n]);
+                    cache = -1;
                 }
                 if (held.size() < 15) {
                     held.push_back(h);
